@@ -209,6 +209,14 @@ func c26Run(in []string) []string {
 				e := c26ParseEntry(et)
 				tbl[e.req] = e.route
 			}
+			if _, hasDefault := tbl[""]; !hasDefault {
+				// without a default route RouteOf's for{} loop does not terminate: construction must be refused;
+				// if it is not, say so and keep the previous producer instead of hanging
+				if _, err := multidb.NewProducer(producers, tbl, recordsKey); err == nil {
+					obs = append(obs, "new:ok:nodefault")
+					continue
+				}
+			}
 			var first *multidb.Producer
 			det, failed := "1", false
 			for i := 0; i < trials && !failed; i++ {
